@@ -364,7 +364,7 @@ fn rercp(r: &coset::CoseRecipient) -> coset::CoseRecipient {
 /// Re-assemble a decoded value: every nested signature, recipient, counter signature and
 /// supplementary-information structure is taken out and handed to the adder / setter of the
 /// enclosing structure's builder.  None if the type has nothing to re-assemble.
-fn reassemble(c: &CVal, v: &MVal) -> Option<CVal> {
+fn reassemble(c: &CVal, v: &MVal, mode: u64, problems: &mut Vec<String>) -> Option<CVal> {
     Some(match c {
         CVal::Header(h) => CVal::Header(rehead(h)),
         CVal::Signature(s) => CVal::Signature(resig(s)),
@@ -374,8 +374,46 @@ fn reassemble(c: &CVal, v: &MVal) -> Option<CVal> {
             if let Some(p) = &m.payload {
                 b = b.payload(p.clone());
             }
-            for s in &m.signatures {
-                b = b.add_signature(resig(s));
+            for (i, s) in m.signatures.iter().enumerate() {
+                // the decoded signer as it is, or as the template of one of the signature-creating
+                // helpers: the bytes handed to the caller's function and the entry stored in the
+                // message must carry the signer's received protected bytes
+                let template = resig(s);
+                let want = s.protected.original_data.clone();
+                let sigbytes = s.signature.clone();
+                let mut seen: Option<Vec<u8>> = None;
+                let which = (mode >> (3 * (i % 16))) & 7;
+                b = match which {
+                    0 | 1 | 2 => b.add_signature(template),
+                    3 => b.add_created_signature(template, &[1, 2], |d| {
+                        seen = Some(d.to_vec());
+                        sigbytes
+                    }),
+                    4 => match b.try_add_created_signature(template, &[], |d| -> Result<Vec<u8>, ()> {
+                        seen = Some(d.to_vec());
+                        Ok(sigbytes)
+                    }) {
+                        Ok(nb) => nb,
+                        Err(()) => return None,
+                    },
+                    5 if m.payload.is_none() => b.add_detached_signature(template, &[9], &[3], |d| {
+                        seen = Some(d.to_vec());
+                        sigbytes
+                    }),
+                    6 if m.payload.is_none() => match b.try_add_detached_signature(template, &[9, 9], &[], |d| -> Result<Vec<u8>, ()> {
+                        seen = Some(d.to_vec());
+                        Ok(sigbytes)
+                    }) {
+                        Ok(nb) => nb,
+                        Err(()) => return None,
+                    },
+                    _ => b.add_signature(template),
+                };
+                if let (Some(d), Some(w)) = (&seen, &want) {
+                    if slot(d, 2).as_deref() != Some(&w[..]) {
+                        problems.push(format!("signer {}: the signature-creating helper (variant {}) handed over a Sig_structure whose sign_protected slot is {} but the signer was received with {}", i, which, slot(d, 2).map(|x| hex(&x)).unwrap_or_else(|| "<unreadable>".into()), hex(w)));
+                    }
+                }
             }
             let mut out = b.build();
             out.protected = reprot(&m.protected);
@@ -461,8 +499,15 @@ fn reassembly_case(ctx: &mut Ctx, ty: Ty, v: &MVal) {
         Err(_) => return,
     };
     let (c2, v2) = (c.clone(), v.clone());
-    let re = match guard(move || reassemble(&c2, &v2)) {
-        Ok(Some(x)) => x,
+    let mode = ctx.rng.next();
+    let mut problems: Vec<String> = Vec::new();
+    let re = match guard(|| reassemble(&c2, &v2, mode, &mut problems)) {
+        Ok(Some(x)) => {
+            for pr in problems.drain(..) {
+                ctx.violation(&format!("C02/reassembled-structure-slot/{}", ty.name()), pr, J::obj(vec![("type", J::Str(ty.name())), ("hex", J::Str(hex(&bytes)))]));
+            }
+            x
+        }
         Ok(None) => {
             ctx.count("reassembly-not-applicable");
             return;
@@ -554,7 +599,7 @@ impl Check for C02 {
         }
     }
     fn rule(&self) -> String {
-        "carriers: the six message types, COSE_Signature, COSE_recipient (nesting <= 3), headers with counter-signatures (in protected and unprotected headers), SuppPubInfo and COSE_KDF_Context; every protected header position is given an independently styled encoding of its content (head widths, indefinite strings/maps/arrays, bignum integers, shuffled typed entries, the empty forms 40 / 41a0 / 42bfff / 42b800 / 43b90000), and the carrier's own framing is styled too. Oracle, by a path-indexed walk: original_data equals the planted bytes at every position (also after clone); to_vec / to_tagged_vec write the same bytes at every position (read back by the independent parser); tbs/verify/MAC/decrypt helpers and sig_structure_data(CounterSignature) carry them in slots 1 (and 2); the parsed view equals the header content for every encoding. Re-assembly: the nested signatures, recipients, counter signatures and SuppPubInfo of a decoded value are handed to add_signature / add_recipient / add_counter_signature / supp_pub_info of a fresh builder of the enclosing structure; the result must hold and write the received bytes at every position. Non-trivial = distinct (position, bytes) whose bytes differ from the deterministic encoding of their header.".into()
+        "carriers: the six message types, COSE_Signature, COSE_recipient (nesting <= 3), headers with counter-signatures (in protected and unprotected headers), SuppPubInfo and COSE_KDF_Context; every protected header position is given an independently styled encoding of its content (head widths, indefinite strings/maps/arrays, bignum integers, shuffled typed entries, the empty forms 40 / 41a0 / 42bfff / 42b800 / 43b90000), and the carrier's own framing is styled too. Oracle, by a path-indexed walk: original_data equals the planted bytes at every position (also after clone); to_vec / to_tagged_vec write the same bytes at every position (read back by the independent parser); tbs/verify/MAC/decrypt helpers and sig_structure_data(CounterSignature) carry them in slots 1 (and 2); the parsed view equals the header content for every encoding. Re-assembly: the nested signatures, recipients, counter signatures and SuppPubInfo of a decoded value are handed to add_signature / add_created_signature / add_detached_signature (and the try_ variants) / add_recipient / add_counter_signature / supp_pub_info of a fresh builder of the enclosing structure; the data handed to the caller's signing function, the built value and its encoding must carry the received bytes at every position. Non-trivial = distinct (position, bytes) whose bytes differ from the deterministic encoding of their header.".into()
     }
     fn assumptions(&self) -> Vec<String> {
         super::std_assumptions()
